@@ -84,6 +84,10 @@ def build_sim(kind, mesh, thickness):
         return Simulations.PhaseField(mesh, Models.PhaseField(mat, "Amor", "AT2", 1.0, 0.2)), dim
     if kind == "hyperelastic":
         return Simulations.HyperElastic(mesh, Models.HyperElastic.NeoHookean(dim, 2.0, 4.0, thickness=thickness) if False else Models.HyperElastic.SaintVenantKirchhoff(dim, 4.0, 4.0, thickness=thickness)), dim
+    if kind == "inelastic":
+        IE_ = Models.InElastic
+        beh = IE_.Behavior(dim, Models.Elastic.Isotropic(3, E=10.0, v=0.25), yieldSurface=IE_.Yield.VonMises(1.0), hardening=IE_.IsotropicHardening.Linear(2.0), thickness=thickness)
+        return Simulations.InElastic(mesh, beh), dim
     raise ValueError(kind)
 
 
@@ -131,7 +135,7 @@ def main():
     types3 = M.ALL_3D if thorough else ["TETRA4", "TETRA10", "HEXA8", "PRISM6", "PRISM15"]
     lines, expect = [], []
     a, b, c = 2.0, 1.0, 1.5
-    kinds_cycle = itertools.cycle(["elastic", "thermal", "phasefield", "hyperelastic", "elastic"])
+    kinds_cycle = itertools.cycle(["elastic", "thermal", "phasefield", "hyperelastic", "inelastic", "elastic"])
 
     for ktype, et in enumerate(types2 + types3):
         dim = M.dim_of(et)
@@ -151,6 +155,8 @@ def main():
             pass
         thickness = rng.choice([1.0, 0.5, 2.5]) if dim == 2 else 1.0
         kind = next(kinds_cycle)
+        if kind == "inelastic" and dim == 2 and thickness == 1.0:
+            thickness = 0.5     # the behaviour wraps a 3D elastic law whose own thickness is 1: the two must not be confused
         try:
             simu, ncomp = build_sim(kind, mesh, thickness)
         except Exception as ex:  # noqa: BLE001
